@@ -15,7 +15,8 @@ EXTENDS Integers, Sequences, FiniteSets, TLC
 
 CONSTANTS FullLen,     \* all nibble strings over 0..15 up to this length
           SparseLen,   \* all nibble strings over SparseAlpha up to this length
-          PairLen      \* length bound of the pairwise leaf/extension comparison
+          PairLen,     \* length bound of the pairwise leaf/extension comparison
+          LongLens     \* lengths of long schematic keys (length bytes / counters of the code overflow at 2^8)
 
 SparseAlpha == {0, 1, 15}
 Term == 16
@@ -62,7 +63,9 @@ IsLeafKey(h) == HasTerm(h)
 (* The bounded domain explored exhaustively *)
 
 SeqsUpTo(S, n) == UNION {[1..m -> S] : m \in 0..n}
-Paths   == SeqsUpTo(0..15, FullLen) \cup SeqsUpTo(SparseAlpha, SparseLen)
+(* long keys: nibble i is (7 i + s) mod 16 for two phases s *)
+LongPaths == {[i \in 1..n |-> (7 * i + s) % 16] : n \in LongLens, s \in {0, 5}}
+Paths   == SeqsUpTo(0..15, FullLen) \cup SeqsUpTo(SparseAlpha, SparseLen) \cup LongPaths
 Domain  == Paths \cup {p \o << Term >> : p \in Paths}
 PairDom == LET P == SeqsUpTo(SparseAlpha, PairLen) IN P \cup {p \o << Term >> : p \in P}
 
